@@ -102,7 +102,8 @@ func createRedirectSignature(
 		return "", "", err
 	}
 
-	return url.QueryEscape(base64.StdEncoding.EncodeToString(sig)), url.QueryEscape(base64.StdEncoding.EncodeToString([]byte(signatureAlgorithm))), nil
+	// both values are url-encoded by BuildRedirectQuery when the redirect is built
+	return base64.StdEncoding.EncodeToString(sig), signatureAlgorithm, nil
 }
 
 func BuildRedirectQuery(
